@@ -3,7 +3,7 @@
 # Confirms an independently written breaking change (in /tmp/seed-<id>-out): the demo passes on the clean tree and
 # fails with the patch; then runs the property's check (quick, VERIF_SEED=1) against the patched tree.
 set -u
-ID=$1; PROP=$2; PKG=$3; RUN=${4:-.}
+ID=$1; PROP=$2; PKG=$3; RUN=${4:-.}; MODDIR=${SV_MODDIR:-.}; TAGS=${SV_TAGS:-}
 if [[ "$RUN" == ginkgo:* ]]; then RUNARGS=(-ginkgo.focus "${RUN#ginkgo:}"); else RUNARGS=(-run "$RUN"); fi
 OUT=/tmp/seed-$ID-out; WT=/tmp/sv-$ID
 export CGO_ENABLED=0 GOFLAGS=-mod=mod GOPROXY=off
@@ -11,12 +11,12 @@ git -C /repo worktree remove --force $WT >/dev/null 2>&1; rm -rf $WT
 git -C /repo worktree add --detach $WT HEAD >/dev/null 2>&1 || { echo "cannot create worktree"; exit 2; }
 cp -r $OUT/demo/. $WT/ 2>/dev/null
 echo "== demo on clean tree (expect PASS)"
-(cd $WT && timeout 1500 go test -count=1 "${RUNARGS[@]}" ./$PKG/ 2>&1 | tail -4)
+(cd $WT/$MODDIR && timeout 1500 go test -tags "$TAGS" -count=1 "${RUNARGS[@]}" ./$PKG/ 2>&1 | tail -4)
 echo "== apply patch"
 git -C $WT apply $OUT/patch.diff || { echo "PATCH DOES NOT APPLY"; exit 2; }
-(cd $WT && go build ./... >/dev/null 2>&1; go vet ./$(dirname $(git -C $WT diff --name-only | head -1))/ 2>&1 | tail -2)
+(cd $WT/$MODDIR && go vet -tags "$TAGS" ./$PKG/ 2>&1 | tail -2)
 echo "== demo with patch (expect FAIL)"
-(cd $WT && timeout 1500 go test -count=1 "${RUNARGS[@]}" ./$PKG/ 2>&1 | tail -6)
+(cd $WT/$MODDIR && timeout 1500 go test -tags "$TAGS" -count=1 "${RUNARGS[@]}" ./$PKG/ 2>&1 | tail -6)
 echo "== check $PROP against patched tree"
 # remove demo files so that the check sees only the source change
 (cd $WT && git status --short | grep '^??' | awk '{print $2}' | xargs -r rm -rf)
